@@ -562,7 +562,7 @@ def run(ctx):
             progs.append((toks, init))
     if q and len(progs) > 4000:
         progs = ctx.rng.sample(progs, 4000)
-    ctx.extra["exhaustive"] = {"skeletons": len(sk), "programs": len(progs)}
+    ctx.extra["exhaustive_small_scope"] = {"skeletons": len(sk), "programs": len(progs)}
     check_programs(ctx, progs, "exhaustive")
     rnd = []
     while len(rnd) < (600 if q else 20000):
